@@ -143,7 +143,7 @@ def check_lib(names, spec, acc, route):
         else:
             out = bibtexparser.write_string(lib, bibtex_format=fmt)
     except Exception as e:
-        acc.raised[type(e).__name__] += 1
+        acc.exception(e, case, "write_string")
         acc.case()
         return
     acc.case(sample=lambda: {"library": list(names), "format": list(spec), "route": route, "output": out}, nontrivial_key=(names, spec, route) if names else None)
